@@ -86,6 +86,14 @@ theorem exec_while_ret (fuel : Nat) (c : BE) (b : St) (s : State F) (hok : c.ok 
   simp only [exec, hok, h, if_true]
   split <;> simp_all
 
+/-- sequencing is associative (the translator nests to the right; proofs may regroup) -/
+theorem exec_seq_assoc (fuel : Nat) (a b c : St) (s : State F) :
+    exec fuel (.seq a (.seq b c)) s = exec fuel (.seq (.seq a b) c) s := by
+  simp only [exec_seq]
+  by_cases h1 : (exec fuel a s).ctl = .run
+  · simp only [h1, if_true]
+  · simp only [h1, if_false]
+
 /-! ### controlled unfolding of expressions (never through an array read) -/
 
 theorem FE.ok_bin (s : State F) (op : BinOp) (a b : FE) : (FE.bin op a b).ok s = (a.ok s && b.ok s) := by
@@ -96,6 +104,8 @@ theorem FE.eval_bin (s : State F) (op : BinOp) (a b : FE) : (FE.bin op a b).eval
   simp only [FE.eval]
 theorem FE.eval_var (s : State F) (v : String) : (FE.var v).eval s = s.fenv v := by simp only [FE.eval]
 theorem FE.eval_lit (s : State F) (n : Int) (d : Nat) : (FE.lit n d).eval s = Fl.lit n d := by simp only [FE.eval]
+theorem FE.ok_ofInt (s : State F) (e : IE) : (FE.ofInt e).ok s = e.ok s := by simp only [FE.ok]
+theorem FE.eval_ofInt (s : State F) (e : IE) : (FE.ofInt e).eval s = Fl.lit (e.eval s) 1 := by simp only [FE.eval]
 theorem IE.ok_var (s : State F) (v : String) : (IE.var v).ok s = true := by simp only [IE.ok]
 theorem IE.ok_lit (s : State F) (n : Int) : (IE.lit n).ok s = true := by simp only [IE.ok]
 theorem IE.eval_var (s : State F) (v : String) : (IE.var v).eval s = s.ienv v := by simp only [IE.eval]
